@@ -49,10 +49,70 @@ def make_jobs(tier):
             for entry in ("open", "open_hash"):
                 for algo in (("sha256", "xxh3", "sha512") if quick else ref.ALGOS):
                     jobs.append({"flavour": flavour, "side": side, "entry": entry, "algo": algo})
+    for flavour, side in (("sync", "s"), ("astd", "a"), ("tok", "a")):
+        jobs.append({"kind": "short", "flavour": flavour, "side": side})
     return jobs
 
 
+def short_worker(ctx, job):
+    """The byte count that commit compares with the declared size must be the number of bytes accepted, also when the
+    file system answers a write short (legal) and the caller sends the rest again: declared size = real count must
+    commit, the inflated count must be rejected. Plain (not memory-mapped) writers: declared size > 1 MiB."""
+    import json as _json
+    import os as _os
+    from vlib import fsx
+    res = V.new()
+    flavour, side = job["flavour"], job["side"]
+    suf = "_sync" if side == "s" else ""
+    cache = ctx.path("c08s-cache")
+    n, tag = ref.MIB + 3, 114
+    data = ref.gen(n, tag)
+    want = ctx.sri("sha256", data)
+    pf = ctx.path("prog-c08s.json")
+
+    def prog(declared):
+        h = {"ref": 0}
+        return [{"op": ("sw_" if side == "s" else "aw_") + "open", "cache": cache, "key": KEY, "opts": {"size": declared}},
+                {"op": "w_write_all", "h": h, "data": {"gen": [n, tag]}}, {"op": "w_commit", "h": h},
+                {"op": "metadata" + suf, "cache": cache, "key": KEY}]
+
+    def run_one(declared, faults):
+        fsutil.wipe(cache)
+        with open(pf, "w") as fh:
+            _json.dump(prog(declared), fh)
+        return fsx.run({"roots": [cache], "actors": [fsx.actor(flavour, "S", pf)], "timeout_ms": 30000, "faults": faults}, ctx.dir)
+
+    probe = run_one(n, [])
+    steps = [s for s in probe["steps"] if s.get("step") is not None]
+    wsteps = [(i, s["len"]) for i, s in enumerate(steps) if s["sys"] in ("write", "pwrite64") and "/tmp/.tmp" in (s.get("fd_path") or "") and s["len"] > 1]
+    wsteps = wsteps[:3] + wsteps[-2:] if len(wsteps) > 5 else wsteps
+    for (i, L) in wsteps:
+        for t in fsx.short_lengths(L):
+            for declared, expect in ((n, "Ok"), (n + (L - t), "SizeMismatch")):
+                rep = run_one(declared, [{"step": i, "short": t}])
+                res["evals"] += 1
+                res["distinct"].add(V.h("c08short", flavour, side, i, t, declared))
+                out = fsx.replies(rep, 0)
+                replay = {"engine": "fsx", "mode": "short", "flavour": flavour, "side": side, "n": n, "declared": declared, "faults": [{"step": i, "short": t}]}
+                sig = "commit-short:open/%s:n>1MiB:%s" % (side, "size=correct" if declared == n else "size=inflated-count")
+                commit = out[2] if len(out) > 2 else (out[-1] if out else {"missing": True})
+                got = "Ok" if "ok" in commit else commit.get("err", {}).get("variant", classify(commit))
+                V.outcome(res, "short|%s|%s" % ("correct" if declared == n else "inflated", got))
+                if rep["status"] != "ok" or got != expect:
+                    V.violation(res, "%s:got-%s" % (sig, got), "write of %d bytes answered short at step %d (%d of %d), declared size %d: commit replied %s, expected %s" % (n, i, t, L, declared, got, expect), replay)
+                    continue
+                if expect == "Ok":
+                    m = out[3].get("ok") if len(out) > 3 else None
+                    if commit["ok"] != want or not m or m["size"] != n or m["integrity"] != want:
+                        V.violation(res, sig + ":wrong-entry", "accepted commit maps %r (expected %s, size %d)" % (m, want, n), replay)
+    fsutil.wipe(cache)
+    res["samples"].append({"kind": "short-answer", "flavour": flavour, "side": side, "write_steps": len(wsteps)})
+    return res
+
+
 def worker(ctx, job):
+    if job.get("kind") == "short":
+        return short_worker(ctx, job)
     res = V.new()
     flavour, side, entry, algo = job["flavour"], job["side"], job["entry"], job["algo"]
     quick = ctx.tier == "quick"
